@@ -829,6 +829,9 @@ v('C04', 'fire', E, 'util.mm_prod(R, V_skew))', 'util.mm_prod(V_skew, R))', 'ope
 v('C04', 'fire', E, '(-util.skew_matrix(rho_n + Omega_n) +', '(-util.skew_matrix(rho_n) +', 'Earth rate dropped from the attitude block')
 
 
+# ATTR-BOUND (survey: renamed / misspelt attributes end the analysis instead of being reported)
+v('C14 C11 C12', 'fire', IS, '            return self.H\n', '            return self.Hm\n', 'attribute that is bound nowhere in the class')
+v('C02 C13', 'fire', S, 'self.with_altitude)', 'self.with_alt)', 'misspelt attribute handed to the kernel')
 # ------------------------------------------------------------------ round-7 seeds
 v('C02 C17', 'fire', K, ['    norm2 = np.sum(rv ** 2)\n', '    dBn = np.empty((3, 3))\n    dBb = np.empty((3, 3))\n'],
   ['    norm2 = np.sum(rv ** 2)\n    if norm2 == 0:\n        return\n\n', '    dBn = np.eye(3)\n    dBb = np.eye(3)\n'],
